@@ -16,6 +16,7 @@ import (
 	"os"
 	"strings"
 	"sync"
+	"sync/atomic"
 	"time"
 
 	"github.com/quic-go/quic-go"
@@ -45,6 +46,25 @@ type Listener struct {
 	acceptChan chan *acceptResult
 	doneChan   chan struct{}
 	doneOnce   *sync.Once
+}
+
+// quicPacketConn is the datagram socket handed to quic-go. quic-go treats every send error as fatal for
+// the connection, but on a mesh a datagram can be unroutable for a moment while a lost link is being
+// routed around. Once tolerant is set, such a datagram is simply lost, as on any datagram network, and
+// QUIC recovers it by retransmission.
+type quicPacketConn struct {
+	PacketConner
+	tolerant *atomic.Bool
+}
+
+func (q *quicPacketConn) WriteTo(p []byte, addr net.Addr) (int, error) {
+	n, err := q.PacketConner.WriteTo(p, addr)
+	var re *routingError
+	if err != nil && q.tolerant.Load() && errors.As(err, &re) {
+		return len(p), nil
+	}
+
+	return n, err
 }
 
 // Internal implementation of Listen and ListenAndAdvertise.
@@ -102,8 +122,10 @@ func (s *Netceptor) listen(ctx context.Context, service string, tlscfg *tls.Conf
 	}
 	statelessResetKey := make([]byte, 32)
 	rand.Read(statelessResetKey)
+	listenerTolerant := &atomic.Bool{}
+	listenerTolerant.Store(true)
 	tr := quic.Transport{
-		Conn:              pc,
+		Conn:              &quicPacketConn{PacketConner: pc, tolerant: listenerTolerant},
 		StatelessResetKey: (*quic.StatelessResetKey)(statelessResetKey),
 	}
 	_ = os.Setenv("QUIC_GO_DISABLE_RECEIVE_BUFFER_WARNING", "1")
@@ -369,8 +391,9 @@ func (s *Netceptor) DialContext(ctx context.Context, node string, service string
 	_ = os.Setenv("QUIC_GO_DISABLE_RECEIVE_BUFFER_WARNING", "1")
 	statelessResetKey := make([]byte, 32)
 	rand.Read(statelessResetKey)
+	dialerTolerant := &atomic.Bool{}
 	tr := quic.Transport{
-		Conn:              pc,
+		Conn:              &quicPacketConn{PacketConner: pc, tolerant: dialerTolerant},
 		StatelessResetKey: (*quic.StatelessResetKey)(statelessResetKey),
 	}
 	qc, err := tr.Dial(cctx, rAddr, tlscfg, cfg)
@@ -383,6 +406,8 @@ func (s *Netceptor) DialContext(ctx context.Context, node string, service string
 
 		return nil, err
 	}
+	// the connection exists: from now on a momentarily unroutable datagram is a lost datagram
+	dialerTolerant.Store(true)
 	qs, err := qc.OpenStreamSync(cctx)
 	if err != nil {
 		close(okChan)
